@@ -149,7 +149,7 @@ pub fn draw(rng: &mut Rng, src: &[u8], donors: &[Vec<u8>]) -> Mutation {
             continue;
         }
         if rng.chance(1, 12) {
-            return Mutation::PadLine { line: rng.below(nlines), width: *rng.pick(&[150usize, 170, 200, 239, 240, 241, 300, 500]), lead: *rng.pick(&[0usize, 0, 0, 150, 200, 400]), multibyte: rng.chance(1, 2) };
+            return Mutation::PadLine { line: rng.below(nlines), width: *rng.pick(&[150usize, 170, 200, 239, 240, 241, 300, 500]), lead: *rng.pick(&[0usize, 0, 0, 150, 200, 400, 400]), multibyte: rng.chance(1, 2) };
         }
         if !sig.is_empty() && rng.chance(1, 14) {
             // a lexically degenerate sibling of a literal: a radix prefix with
@@ -326,6 +326,25 @@ pub fn apply(src: &[u8], m: &Mutation) -> Vec<u8> {
                     padded.push(b'\n');
                 }
                 *l = padded;
+                // code pushed to a far column: its neighbour above becomes a
+                // long line of a different, shorter length (excerpts show
+                // several lines around the marked one)
+                if *lead >= 300 && *line > 0 {
+                    let prev = &mut lines[*line - 1];
+                    let had_nl = prev.ends_with(b"\n");
+                    if had_nl {
+                        prev.pop();
+                    }
+                    if prev.len() < 170 {
+                        prev.extend_from_slice(b" ; ");
+                        while prev.len() < 170 + (*width % 60) {
+                            prev.push(b'y');
+                        }
+                    }
+                    if had_nl {
+                        prev.push(b'\n');
+                    }
+                }
             }
             lines.concat()
         }
